@@ -349,8 +349,7 @@ Section Postorder.
 End Postorder.
 
 (* ================================================================== stretch: the whole-contract function *)
-Definition dedup_s (l : list string) : list string :=
-  fold_right (fun c l => if LeafPrelude.smem c l then l else c :: l) [] l.
+Definition dedup_s (l : list string) : list string := dedup_first l.
 Definition wf_direct (t : teal) : list string := dedup_s (called_from t (s_blocks (t_main t))).
 Definition wf_used (t : teal) : list string :=
   used_subs (S (length (t_subs t))) t (wf_direct t) (wf_direct t).
@@ -396,17 +395,18 @@ Qed.
 
 Lemma dedup_s_In l x : In x (dedup_s l) <-> In x l.
 Proof.
-  induction l as [|a l IH]; simpl; [tauto|].
-  destruct (LeafPrelude.smem a (dedup_s l)) eqn:E.
-  - apply smem_In in E. rewrite IH. split; [tauto|]. intros [<-|H]; [apply IH; assumption | assumption].
-  - simpl. rewrite IH. tauto.
+  unfold dedup_s. induction l as [|a l IH]; cbn [dedup_first]; [tauto|].
+  cbn [In]. rewrite filter_In, IH. split.
+  - intros [H|[H _]]; tauto.
+  - intros [H|H]; [left; assumption|]. destruct (string_dec a x) as [E|E]; [left; assumption|].
+    right. split; [assumption|]. apply (proj2 (String.eqb_neq a x)) in E. rewrite E. reflexivity.
 Qed.
 
 Lemma dedup_s_NoDup l : NoDup (dedup_s l).
 Proof.
-  induction l as [|a l IH]; simpl; [constructor|].
-  destruct (LeafPrelude.smem a (dedup_s l)) eqn:E; [assumption|].
-  constructor; [|assumption]. intro H. apply smem_In in H. congruence.
+  unfold dedup_s. induction l as [|a l IH]; cbn [dedup_first]; [constructor|].
+  constructor; [|apply NoDup_filter; assumption].
+  rewrite filter_In. intros [_ H]. rewrite String.eqb_refl in H. discriminate.
 Qed.
 
 Definition callees (t : teal) (u : string) : list string :=
